@@ -289,3 +289,55 @@ def run_case(ctx, desc):
             ctx.violation("history-independent", f"{desc['world']} {op} after {prev} -> {str(res)[:160]}; on fresh objects -> {str(ref)[:160]}")
             return
         prev.append(op)
+
+
+# ---------------------------------------------------------------------------------------------------
+# thorough tier: the repository's own tests as a workload under the snapshot monitor
+def custom_driver(tier, seed, work):
+    import glob
+    import json
+    import os
+    import subprocess
+    import sys
+
+    from .. import core
+
+    mod = sys.modules[__name__]
+    results, extra = core.run_shards(mod, ID, tier, seed, work)
+    if tier != "thorough" and os.environ.get("VERIF_PLUGIN") != "1":
+        return results, extra
+    env = core.child_env(True)
+    env["VF_PLUGIN_OUT"] = os.path.join(work, "plug")
+    env.pop("PYTHONWARNINGS", None)
+    cmd = [core.PY, "-m", "pytest", "-q", "-p", "no:cacheprovider", "-p", "vf.pytest_plugin", "-n", os.environ.get("VERIF_JOBS", "14"),
+           "--timeout=900", "-x" if False else "-q", "xgcm/test"]
+    try:
+        p = subprocess.run(cmd, cwd=core.REPO, env=env, capture_output=True, text=True, timeout=2400)
+        tail = p.stdout.strip().splitlines()[-1] if p.stdout.strip() else p.stderr[-200:]
+    except subprocess.TimeoutExpired:
+        extra.append("repository-tests workload timed out")
+        return results, extra
+    ctx = core.Ctx(ID, tier, seed)
+    files = glob.glob(os.path.join(work, "plug.*.json"))
+    if not files:
+        extra.append("repository-tests workload produced no monitor output: " + tail[:200])
+        return results, extra
+    total = {"calls": 0, "judged": 0}
+    for f in files:
+        st = json.load(open(f))
+        total["calls"] += st["calls"]
+        total["judged"] += st["judged"]
+        for api, n in st["by_api"].items():
+            ctx.judged(("repo-tests-workload", api), True, n=0)
+            ctx.count("repo_tests_calls:" + api, n)
+        for v in st["violations"]:
+            ctx.case_index = None
+            ctx.violation("arguments-unmodified", f"repository test {v['test']}: {v['api']} ({v['outcome']}) modified {v['arg']}: {v['diff']}",
+                          desc={"workload": "repository tests", "test": v["test"], "api": v["api"]})
+    ctx.evaluations += total["judged"]
+    ctx.count("repo_tests_calls_monitored", total["judged"])
+    ctx.sample({"workload": "repository test suite under the snapshot monitor", "pytest_summary": tail[:200], "calls_monitored": total["judged"]})
+    r = ctx.result()
+    r["reached"], r["reach_active"] = [], True
+    results.append(r)
+    return results, extra
